@@ -40,7 +40,7 @@ NOTE: {len(u)} other engineers have already seeded defects for this property:
 {earlier}
 Choose a DIFFERENT mechanism and a different function from all of them, ideally a clause of the property statement or a corner of the quantified domain that none of them touches (read the statement again clause by clause and pick the least obvious one).
 
-STYLE OF DEFECT for this round: prefer one of (a) two cooperating sites that each look fine alone, (b) state carried between calls (cached / memoised properties, objects shared between a frame and a frame derived from it), (c) the seams between pandas, Dask and pyarrow (conversions, metadata, dispatch functions, dtype handling), (d) arithmetic corners (integer width, float precision, signed zeros, NaN/inf) - whichever fits the property and has not been used by the earlier seeds.
+STYLE OF DEFECT for this round: prefer one of (a) a public method, argument or option named in (or implied by) the property that the earlier seeds did not exercise, (b) the interaction of two features that are each fine alone (slicing + spatial index + Dask, several geometry columns + parquet + pruning, missing rows + sorting, ...), (c) a boundary of a counted quantity (0, 1, exactly page_size, exactly a power of two, the last partition, the first element), (d) an error path that should raise but now returns something (or the reverse) - whichever fits the property and has not been used by the earlier seeds.
 
 SIDE OBSERVATIONS: while exploring, if you notice that the UNMODIFIED code already violates the property statement on some input or operation sequence (i.e. a pre-existing bug, not your mutant), record it in NOTES.md under a heading "Side observations on the unmodified tree" with a minimal reproducer (a few lines of Python and the observed vs expected output). Do not fix it and do not build your mutant on it.
 
